@@ -50,6 +50,10 @@ MUTATIONS = [
     # a writer on a row stored in a repeated run must change that row only (DESIGN C, C01's catalogue): seen because writers run on run-length tables
     ("set-cell-writes-whole-run", TA, "            repeated = row.repeated or 1\n            if repeated > 1:\n                row = row.clone\n                row.repeated = None\n                cell_back = row.set_cell(x, cell, clone=clone)",
      "            repeated = row.repeated or 1\n            if repeated > 99:\n                row = row.clone\n                row.repeated = None\n                cell_back = row.set_cell(x, cell, clone=clone)"),
+    # a Python-level filter instead of an exact match (seeded change C14-4): look-alike table names
+    ("named-ranges-filter-substring", TA, "            if nr.table_name in filter_  # type:ignore", "            if any(nr.table_name in f for f in filter_)  # type:ignore"),
+    ("rename-moves-case-variants", TA, "        for named_range in self.get_named_ranges(table_name=self.name):\n            named_range.set_table_name(name)",
+     "        for named_range in self.get_named_ranges():\n            if named_range.table_name.lower() == self.name.lower():\n                named_range.set_table_name(name)"),
     ("get-columns-f24-again", TA, "            x, _y, z, _t = self._translate_column_coordinates(coord)", "            x, _y, _z, z = self._translate_column_coordinates(coord)"),
 ]
 REWRITES = [
